@@ -750,3 +750,9 @@ pub mod verif {
         Ok((svc, udp, tcp))
     }
 }
+
+/// Verification hook: the (private) construction of the upstream query.
+#[cfg(erbium_verif)]
+pub fn verif_create_outquery(id: u16, in_query: &dnspkt::DNSPkt) -> dnspkt::DNSPkt {
+    create_outquery(id, in_query)
+}
